@@ -174,11 +174,10 @@ func (u *Url) SetPort(port string) {
 }
 
 func (u *Url) DecodedPort() int {
-	if u.decodedPort == 0 {
+	if u.port == nil {
 		return u.getDefaultPort()
-	} else {
-		return u.decodedPort
 	}
+	return u.decodedPort
 }
 
 // Pathname implements WHATWG url api (https://url.spec.whatwg.org/#api)
